@@ -932,17 +932,16 @@ class ExecutionController:
                 # Already done, no need to think more.
                 return
 
-            if stmt_id in self.plan_id_set:
-                # Already in plan, no need to think more.
-                return
-
             if stmt_id in early_plan:
                 return
 
             for dep_id in stmt.depends_on:
                 add_with_deps(id_to_stmt[dep_id])
 
-            assert stmt_id not in self.plan_id_set
+            if stmt_id in self.plan_id_set:
+                # Already planned for later: pull it forward, or else a newly
+                # requested statement could run before this dependency of it.
+                self.plan.remove(stmt_id)
 
             early_plan.append(stmt_id)
 
